@@ -293,3 +293,21 @@ theorem prune_self {v t} (h : HasTy v t) : prune v t = some v := by
 #print axioms strip_enc
 #print axioms prune_prune
 end Vl
+
+namespace Vl
+/-- **C11 core**: on values of one type the compact encoding is injective, so comparing
+`(type, compact bits)` is comparing the denoted elements -/
+theorem compact_inj {t v w} (hv : HasTy v t) (hw : HasTy w t) (h : compact v = compact w) : v = w := by
+  have a := decCompact_compact hv []
+  have b := decCompact_compact hw []
+  rw [h] at a
+  rw [a] at b
+  cases b; rfl
+
+/-- a machine result (any padding content) and a constructed value of the same element compare equal
+once both are reduced to compact form -/
+theorem strip_eq_of_enc {t v bs bs'} (h : Enc t v bs) (h' : Enc t v bs') : strip t bs = strip t bs' := by
+  rw [strip_enc h, strip_enc h']
+
+#print axioms compact_inj
+end Vl
